@@ -132,6 +132,9 @@ inner_t = Prog("inner_t", ("a",), (Site("v", "flip", ("0.9",)),), "xp.where(v, 1
 inner_f = Prog("inner_f", ("a",), (Site("v", "flip", ("0.2",)),), "xp.where(v, 1.0, 0.0)")
 brn_t = Prog("brn_t", ("a",), (Call("s", inner_t, ("a",)),), "s")
 brn_f = Prog("brn_f", ("a",), (Call("s", inner_f, ("a",)),), "s")
+# branches returning a pytree (tuple)
+brp_t = Prog("brp_t", ("a",), (Site("v", "normal", ("a + 1.0", "0.5")),), "(v, 2.0 * v)")
+brp_f = Prog("brp_f", ("a",), (Site("v", "normal", ("a - 2.0", "1.5")),), "(v, v + 1.0)")
 innerc_t = Prog("innerc_t", ("a",), (Site("v", "normal", ("a + 1.0", "0.5")),), "v")
 innerc_f = Prog("innerc_f", ("a",), (Site("v", "normal", ("a - 2.0", "1.5")),), "v")
 brnc_t = Prog("brnc_t", ("a",), (Call("s", innerc_t, ("a",)),), "s")
@@ -188,6 +191,12 @@ cond_nested = Prog(
     "y",
 )
 
+cond_tuple_ret = Prog(
+    "cond_tuple_ret",
+    ("a", "flag"),
+    (CondCall("c", brp_t, brp_f, "flag", ("a",)), Site("y", "normal", ("c[0] + c[1]", "1.0"))),
+    "(y, c[1])",
+)
 cond_nested_c = Prog(
     "cond_nested_c",
     ("a", "flag"),
@@ -248,6 +257,7 @@ FAMILY = {
     "cond_support": (cond_support, [(f32(0.3), np.bool_(True)), (f32(0.3), np.bool_(False))], "quick"),
     "cond_nested": (cond_nested, [(f32(0.3), np.bool_(True)), (f32(0.3), np.bool_(False))], "quick"),
     "cond_nested_c": (cond_nested_c, [(f32(0.3), np.bool_(True))], "quick"),
+    "cond_tuple_ret": (cond_tuple_ret, [(f32(0.3), np.bool_(False))], "quick"),
     # depth 2
     "vmap_scan": (vmap_scan, [(A(0.1, 0.7), A(0.5, -0.4, 1.1))], "thorough"),
     "scan_vmap": (scan_vmap, [(f32(0.3), A(0.5, -0.4))], "thorough"),
@@ -285,6 +295,7 @@ ALT_ARGS = {
     "cond_support": [(f32(-1.2), np.bool_(False))],
     "cond_nested": [(f32(-1.2), np.bool_(True))],
     "cond_nested_c": [(f32(-1.2), np.bool_(True))],
+    "cond_tuple_ret": [(f32(-1.2), np.bool_(False)), (f32(0.3), np.bool_(True))],
     "vmap_scan": [(A(0.5, -0.4), A(0.5, -0.4, 1.1))],
     "scan_vmap": [(f32(-1.2), A(0.5, -0.4)), (f32(0.3), A(1.1, 0.1))],
     "scan_cond": [(f32(0.3), A(-0.5, 0.4))],
